@@ -260,6 +260,7 @@ func (c *c17) call(tg *target, name string, args []reflect.Value, argText string
 	if o.timedOut {
 		c.violate(probe, fmt.Sprintf("%s did not return within %v (non-termination)", text, callTimeout), "the call was abandoned by the watchdog")
 		c.dead = true
+		c.cr.Checks["call_timeouts"]++
 		return nil, false
 	}
 	if o.panicked {
